@@ -123,7 +123,7 @@ def cTabPrimaryNonpal : Tab := { stdTab with nonpal := .primary :: stdTab.nonpal
 /-- `if (!isnan(x)) N++;` over a membership list -/
 def count (p : Presence) : List Arg → Nat
   | [] => 0
-  | q :: r => (if p.get q then 1 else 0) + count p r
+  | q :: r => (p.get q).toNat + count p r
 
 /-! ## C front end -/
 
